@@ -108,6 +108,11 @@ def extract(config, repo=None, quiet=True):
     # the cargo target directory is shared by every check process: extractions are serialised with an exclusive
     # file lock (checks of several properties may run concurrently and must not disturb each other's build)
     import fcntl
+    # two locks: the fact directory of this (tree, config) - processes with private target directories may still
+    # analyse identical trees - and the cargo target directory
+    os.makedirs(os.path.dirname(out), exist_ok=True)
+    lock_out = open(out.rstrip("/") + ".lock", "w")
+    fcntl.flock(lock_out, fcntl.LOCK_EX)
     lockf = open(os.path.join(tgt, ".verif-extract.lock"), "w")
     fcntl.flock(lockf, fcntl.LOCK_EX)
     try:
@@ -117,6 +122,8 @@ def extract(config, repo=None, quiet=True):
     finally:
         fcntl.flock(lockf, fcntl.LOCK_UN)
         lockf.close()
+        fcntl.flock(lock_out, fcntl.LOCK_UN)
+        lock_out.close()
 
 
 def _extract_locked(config, repo, out, tgt, pkgs, feats, expected, extra_flags, marker, quiet):
